@@ -270,8 +270,12 @@ impl<T: Socket + ?Sized> Worker<T> {
         for i in 0..self.repeat_amount {
             if i > 0 {
                 std::thread::sleep(DEFAULT_DUPLICATE_DELAY);
+                // The repeated copies are redundancy: the peer may already have left
+                // after the first one, which must not fail the transfer.
+                let _ = self.socket.send(packet);
+            } else {
+                self.socket.send(packet)?;
             }
-            self.socket.send(packet)?;
         }
 
         Ok(())
